@@ -209,7 +209,8 @@ var replyCode = map[string]string{"ack": "ack", "item-not-found": "inf", "unexpe
 // ---------------------------------------------------------------- receiver
 
 type rop struct {
-	kind    byte // d c C r
+	kind    byte // d c C r w (w: the local side writes + flushes on the same connection)
+	data    []byte
 	known   bool
 	seq     int
 	payload string
@@ -264,6 +265,8 @@ func runRecv(r *common.Run, maxbuf int, carrier string, ops []rop, class string)
 	var accepted, got []byte
 	expSeq, unread, closed, nd := 0, 0, false, 0
 	lastBad := "none"
+	var packOps []string // the local writer's view of the history (other direction)
+	wrote := false
 	for _, o := range ops {
 		if len(obs) > 0 && strings.HasPrefix(obs[len(obs)-1], "PROBLEM") {
 			break
@@ -324,7 +327,39 @@ func runRecv(r *common.Run, maxbuf int, carrier string, ops []rop, class string)
 				unread += len(dec)
 				expSeq = (expSeq + 1) % 65536
 			}
+		case 'w':
+			done := make(chan error, 1)
+			go func() {
+				_, err := conn.Write(o.data)
+				if err == nil {
+					err = conn.Flush()
+				}
+				done <- err
+			}()
+			var werr error
+			if !p.pump(func() bool {
+				select {
+				case werr = <-done:
+					return true
+				default:
+					return false
+				}
+			}) {
+				fail("local Write does not return")
+				continue
+			}
+			if closed {
+				if werr == nil && len(o.data) > 0 {
+					r.Fail("close", "write-after-close-accepted", line(), "Write on a closed stream returned nil")
+				}
+			} else if werr != nil {
+				fail("local Write failed: " + werr.Error())
+				continue
+			}
+			wrote = true
+			packOps = append(packOps, "w:"+common.Hex(o.data), "f")
 		case 'c', 'C':
+			packOps = append(packOps, "C")
 			toks = append(toks, "c")
 			if o.kind == 'c' {
 				p.feed(fmt.Sprintf(`<iq xmlns="jabber:client" type="set" id="c1" from="%s" to="me@example.net/h"><close xmlns="http://jabber.org/protocol/ibb" sid="S"/></iq>`, peerJID))
@@ -391,6 +426,18 @@ func runRecv(r *common.Run, maxbuf int, carrier string, ops []rop, class string)
 	}
 	l := fmt.Sprintf("recv %d %s", maxbuf, common.Join(toks, ","))
 	r.Line(l, common.Join(obs, ","))
+	if wrote && !(len(obs) > 0 && strings.HasPrefix(obs[len(obs)-1], "PROBLEM")) {
+		// both directions on one connection: the stanzas the local writer produced must be
+		// what the packetiser predicts from the writes alone, and the line above (which does
+		// not mention the writes) must still be answered as observed
+		p.sync()
+		var pk []string
+		for _, q := range p.packets {
+			n, _ := strconv.Atoi(q.seq)
+			pk = append(pk, fmt.Sprintf("%d:%s:%s", n, common.B(q.sid == "S"), common.HexS(q.payload)))
+		}
+		r.Line(fmt.Sprintf("pack 4 %s", common.Join(packOps, ",")), common.Join(pk, ","))
+	}
 	if os.Getenv("VERIF_DEBUG") != "" {
 		fmt.Fprintln(os.Stderr, l, "=>", common.Join(obs, ","))
 	}
@@ -518,6 +565,25 @@ func runSend(r *common.Run, accept bool, acked bool, blockSize uint16, ops []sop
 	}
 	r.Line(line, o2)
 	r.Case(line, len(written) > 0, class)
+	if res == "" && len(ops) < 5000 {
+		// the exact packetisation predicted by the Lean packetiser (bufio + base64 stream encoder)
+		bsz := int(blockSize)
+		if bsz == 0 {
+			bsz = ibb.BlockSize
+		}
+		var ot []string
+		for _, op := range ops {
+			switch op.kind {
+			case 'w':
+				ot = append(ot, "w:"+common.Hex(op.data))
+			case 'f':
+				ot = append(ot, "f")
+			case 'C':
+				ot = append(ot, "C")
+			}
+		}
+		r.Line(fmt.Sprintf("pack %d %s", bsz, common.Join(ot, ",")), common.Join(pk, ","))
+	}
 	switch {
 	case !seqOK:
 		r.Fail("seq", "packets-not-numbered-consecutively-from-zero", lines, "sequence numbers / sid of the data stanzas")
